@@ -427,6 +427,8 @@ def mutate(gen, items, kind, rng):
         dup = copy.deepcopy(t)
         node = o.by_path[t["node"].casefold()]
         dup["name"] = gen.spell(node)                 # another spelling of the same tag
+        if dup.get("suffix") and dup["role"] == "ext" and rng.random() < 0.5 and dup["suffix"].swapcase() != dup["suffix"]:
+            dup["suffix"] = dup["suffix"].swapcase()  # values and extensions compare without regard to letter case
         sibs = p["kids"] if p else items
         sibs.insert(rng.randrange(0, len(sibs) + 1), dup)
         code = "TAG_EXPRESSION_REPEATED"
@@ -560,9 +562,21 @@ def mutate(gen, items, kind, rng):
         d = rng.choice(gen.defs)
         val = gen.def_value(d) if d["takes_value"] else None
         content = gen.expansion(d, val)
-        how = rng.choice(["add", "remove", "swap"])
+        how = rng.choice(["add", "remove", "swap", "regroup", "regroup"])
         plain_in = [t for t, _ in walk(content) if t["t"] == "tag" and t["role"] == "def-plain"]
-        if how == "add" or not plain_in:
+        if how == "regroup":
+            # the same tags, grouped differently: a nested group dissolved into its parent, or two members wrapped
+            inner = [k for k in content if k["t"] == "group"]
+            if inner:
+                g0 = rng.choice(inner)
+                i0 = content.index(g0)
+                content[i0:i0 + 1] = g0["kids"]
+            elif len(content) >= 2:
+                a, b = content[0], content[1]
+                content[0:2] = [group([a, b])]
+            else:
+                content[0:1] = [group([content[0]])]
+        elif how == "add" or not plain_in:
             content.append(gen._plain_atom())
         elif how == "remove" and len(content) > 1:
             content.pop(rng.randrange(len(content)))
